@@ -249,7 +249,9 @@ class PortalRun:
                         S.yield_point("before-cancel")
                         self.h.rec("future_cancel", cid)
                         st["cancel_requested"] = True
+                        st["in_cancel"] = True
                         f.cancel()
+                        st["in_cancel"] = False
                         self.faults["future_cancel"] += 1
                     elif kind == "soon_late_cancel":
                         for _ in range(4):
@@ -258,7 +260,9 @@ class PortalRun:
                         st["cancel_requested"] = True
                         if st["exec"]:
                             self.nontrivial = True
+                        st["in_cancel"] = True
                         f.cancel()
+                        st["in_cancel"] = False
                         self.faults["future_cancel"] += 1
                     try:
                         r = f.result()
@@ -430,7 +434,7 @@ class PortalRun:
 
         def snapshot():
             snap["waiting"] = [dict(cid=cid, exec=st["exec"], kind=st["kind"], stop_begun_at_issue=st["stop_begun_at_issue"],
-                                    stop_begun_now=self.stop_begun)
+                                    stop_begun_now=self.stop_begun, in_cancel=bool(st.get("in_cancel")))
                                for cid, st in self.calls.items() if st.get("waiting")]
         sched.on_deadlock.append(snapshot)
         outcome = "ok"
@@ -477,7 +481,7 @@ class PortalRun:
             waiting = snap.get("waiting", [])
             parked_in_call = all(("future.result" in part or "join" in part) for part in sched.deadlock.split(": ", 1)[-1].split(", "))
             f8 = (self.stop_begun or self.context_left_begun) and parked_in_call and all(
-                w["exec"] == 0 and w["stop_begun_now"] for w in waiting)
+                (w["exec"] == 0 or w["in_cancel"]) and w["stop_begun_now"] for w in waiting)
             self.v("stuck", f"deadlock: {sched.deadlock}; calls still waiting for an answer: {waiting}",
                    sig="C15.stuck:" + ("call-raced-with-loop-shutdown" if f8 else "deadlock"))
         elif outcome == "itercap":
